@@ -866,6 +866,27 @@ Proof.
   destruct m as [p|p x y|p v]; try reflexivity. destruct v; [reflexivity|]. now destruct (path_is_ident p (lit "doc")).
 Qed.
 
+(* the same, in the vocabulary of Spec/C15Spec.v: the strings carried are [c15_carried] of the attribute values *)
+Theorem parse_comment_attrs_carried uc attrs :
+  parse_comment_attrs uc attrs =
+  map (c15_carried uc)
+      (flat_map (fun a => match a_meta a with
+                          | MNV p (VStr s) => if path_is_ident p (lit "doc") then [s] else []
+                          | _ => []
+                          end) attrs).
+Proof.
+  rewrite parse_comment_attrs_spec. induction attrs as [|[i m] r IH]; [reflexivity|].
+  cbn [flat_map a_meta]. rewrite map_app, <- IH. f_equal.
+  destruct m as [p|p x y|p v]; try reflexivity. destruct v; [|reflexivity]. now destruct (path_is_ident p (lit "doc")).
+Qed.
+
+(* carried text has no white space at either end left to escape: it is a fixed point of the trim *)
+Lemma trim_start_idem uc s : trim_start uc (trim_start uc s) = trim_start uc s.
+Proof.
+  induction s as [|c r IH]; [reflexivity|]. cbn [trim_start]. destruct (u_is_ws uc c) eqn:E; [exact IH|].
+  cbn [trim_start]. now rewrite E.
+Qed.
+
 (* ================= Part 10: the Scala renderer as code parts and comment fragments ================= *)
 Definition sc_part_text (p : c15_part) : str :=
   match p with CPcode s => s | CPdoc _ i ds => sc_write_comments i ds end.
